@@ -211,6 +211,7 @@ theorem serialize_ok_layout (c : Cell) (id : Nat) (h : serialize c = .ok id) (ho
     (hs : c.segment < 5) : Layout id ∧ getResolution id = c.res ∧ -1 ≤ c.res ∧ c.res ≤ 29 := by
   obtain ⟨o, seg, s, r⟩ := c
   simp only at ho hs
+  show Layout id ∧ getResolution id = r ∧ -1 ≤ r ∧ r ≤ 29
   by_cases h30 : r ≥ 30
   · simp only [serialize, Gen.MAX_RESOLUTION] at h; rewrite [if_pos h30] at h; cases h
   by_cases hneg : r < -1
@@ -220,24 +221,24 @@ theorem serialize_ok_layout (c : Cell) (id : Nat) (h : serialize c = .ok id) (ho
     have e : serialize ⟨o, seg, s, -1⟩ = .ok 0 := by simp [serialize, Gen.MAX_RESOLUTION, Gen.WORLD_CELL]
     rewrite [e] at h
     cases Outcome.ok.inj h
-    exact ⟨Or.inl rfl, getResolution_zero', by decide, by decide⟩
+    exact ⟨Or.inl rfl, getResolution_zero', by omega, by omega⟩
   by_cases h0 : r = 0
   · subst h0
     rewrite [serialize_res0' o seg s ho hs] at h
     cases Outcome.ok.inj h
     have hv : (⟨o, 0, 0, 0⟩ : Cell).Valid := Or.inr (Or.inl ⟨rfl, ho, rfl, rfl⟩)
-    exact ⟨layout_enc _ hv, getResolution_enc _ hv, by decide, by decide⟩
+    exact ⟨layout_enc _ hv, getResolution_enc _ hv, by omega, by omega⟩
   by_cases h1 : r = 1
   · subst h1
     rewrite [serialize_res1' o seg s ho hs] at h
     cases Outcome.ok.inj h
     have hv : (⟨o, seg, 0, 1⟩ : Cell).Valid := Or.inr (Or.inr (Or.inl ⟨rfl, ho, hs, rfl⟩))
-    exact ⟨layout_enc _ hv, getResolution_enc _ hv, by decide, by decide⟩
+    exact ⟨layout_enc _ hv, getResolution_enc _ hv, by omega, by omega⟩
   by_cases hS : s < 4 ^ (r - 1).toNat
   · have hv : (⟨o, seg, s, r⟩ : Cell).Valid := Or.inr (Or.inr (Or.inr ⟨by show 2 ≤ r; omega, by show r ≤ 29; omega, ho, hs, hS⟩))
     rewrite [serialize_valid _ hv] at h
     cases Outcome.ok.inj h
-    exact ⟨layout_enc _ hv, getResolution_enc _ hv, by show -1 ≤ r; omega, by show r ≤ 29; omega⟩
+    exact ⟨layout_enc _ hv, getResolution_enc _ hv, by omega, by omega⟩
   · rewrite [serialize_sTooLarge o seg s r (by omega) (by omega) ho hs hS] at h
     cases h
 
@@ -336,5 +337,375 @@ theorem sToAnchor_ok (s n : Nat) (o : Orientation) (hn : n ≤ 30) (hs : s < 4 ^
   · simp only [if_true]
     rewrite [if_neg (by omega)]
     exact ⟨_, rfl⟩
+
+/-! ### the estimate -/
+
+/-- integer fields of a cell produced by `lonlat_to_estimate` at resolution `r` -/
+def EstOK (r : Int) (c : Cell) : Prop :=
+  c.res = r ∧ c.origin < 12 ∧ c.segment < 5 ∧ (if r < 2 then c.s = 0 else c.s < 4 ^ (r - 1).toNat)
+
+/-- `lonlat_to_estimate` either fails with `crsVertex` (from the projection) or returns a cell with the
+requested resolution, a real face, a real quintant and a curve position that fits.  No panic. -/
+theorem lonlatToEstimate_cases (lon lat : Float) (r : Int) (hr : r ≤ 29) :
+    lonlatToEstimate lon lat r = .err .crsVertex ∨ ∃ c, lonlatToEstimate lon lat r = .ok c ∧ EstOK r c := by
+  unfold lonlatToEstimate
+  generalize fromLonLat lon lat = tp
+  obtain ⟨theta, phi⟩ := tp
+  dsimp only
+  have hid := findNearestOrigin_id theta phi
+  rcases (dodecaForward_okOrCrs theta phi _ hid).cases with h | ⟨dp, h⟩
+  · rewrite [h]; exact Or.inl rfl
+  · rewrite [h]
+    simp only [Outcome.bind_ok]
+    refine Or.inr ?_
+    have hseg := quintantToSegment_lt (getQuintantPolar (toPolar dp).2) (findNearestOrigin theta phi)
+    generalize quintantToSegment (getQuintantPolar (toPolar dp).2) (findNearestOrigin theta phi) = so at hseg ⊢
+    obtain ⟨seg, ori⟩ := so
+    dsimp only at hseg ⊢
+    by_cases h2 : r < Gen.FIRST_HILBERT_RESOLUTION
+    · rewrite [if_pos h2]
+      have h2' : r < 2 := h2
+      exact ⟨_, rfl, rfl, hid, hseg, by rewrite [if_pos h2']; rfl⟩
+    · rewrite [if_neg h2]
+      have h2' : ¬ r < 2 := h2
+      have hF : Gen.FIRST_HILBERT_RESOLUTION = 2 := rfl
+      generalize faceToIJ _ = ij
+      obtain ⟨i, j⟩ := ij
+      dsimp only
+      obtain ⟨s, hs, hlt⟩ := ijToS_ok floatLits i j (1 + r - Gen.FIRST_HILBERT_RESOLUTION).toNat ori (by omega)
+      rewrite [hs]
+      simp only [Outcome.bind_ok]
+      refine ⟨_, rfl, rfl, hid, hseg, ?_⟩
+      rewrite [if_neg h2']
+      have e : (1 + r - Gen.FIRST_HILBERT_RESOLUTION).toNat = (r - 1).toNat := by omega
+      rewrite [e] at hlt
+      exact hlt
+
+/-- estimates always encode: `serialize` succeeds and the id has the requested resolution -/
+theorem serialize_est (r : Int) (c : Cell) (h : EstOK r c) (h0 : 0 ≤ r) (hr : r ≤ 29) :
+    ∃ id, serialize c = .ok id ∧ Layout id ∧ getResolution id = r := by
+  obtain ⟨o, seg, s, r'⟩ := c
+  obtain ⟨h1, h2, h3, h4⟩ := h
+  simp only at h1 h2 h3 h4
+  subst h1
+  by_cases hr0 : r' = 0
+  · subst hr0
+    have hv : (⟨o, 0, 0, 0⟩ : Cell).Valid := Or.inr (Or.inl ⟨rfl, h2, rfl, rfl⟩)
+    exact ⟨_, serialize_res0' o seg s h2 h3, layout_enc _ hv, getResolution_enc _ hv⟩
+  by_cases hr1 : r' = 1
+  · subst hr1
+    have hv : (⟨o, seg, 0, 1⟩ : Cell).Valid := Or.inr (Or.inr (Or.inl ⟨rfl, h2, h3, rfl⟩))
+    exact ⟨_, serialize_res1' o seg s h2 h3, layout_enc _ hv, getResolution_enc _ hv⟩
+  rewrite [if_neg (by omega)] at h4
+  have hv : (⟨o, seg, s, r'⟩ : Cell).Valid :=
+    Or.inr (Or.inr (Or.inr ⟨by show 2 ≤ r'; omega, hr, h2, h3, h4⟩))
+  exact ⟨_, serialize_valid _ hv, layout_enc _ hv, getResolution_enc _ hv⟩
+
+/-! ### containment test -/
+
+theorem getPentagon_est (r : Int) (c : Cell) (h : EstOK r c) (h2 : 2 ≤ r) (hr : r ≤ 29) :
+    ∃ p, getPentagon c = .ok p := by
+  obtain ⟨h1, ho, hs, h4⟩ := h
+  rewrite [if_neg (by omega)] at h4
+  have hF : Gen.FIRST_HILBERT_RESOLUTION = 2 := rfl
+  unfold getPentagon
+  rewrite [if_neg (by rewrite [origins_length]; omega)]
+  generalize segmentToQuintant c.segment (originAt c.origin) = qo
+  obtain ⟨q, o⟩ := qo
+  dsimp only
+  rewrite [if_neg (by omega), if_neg (by omega), if_neg (by omega)]
+  have e : (c.res - Gen.FIRST_HILBERT_RESOLUTION + 1).toNat = (r - 1).toNat := by omega
+  rewrite [e]
+  obtain ⟨a, ha⟩ := sToAnchor_ok c.s (r - 1).toNat o (by omega) h4
+  rewrite [ha]
+  exact ⟨_, rfl⟩
+
+theorem polyContains_benign (vs : Poly) (p : V2) : Benign (polyContains vs p) := by
+  unfold polyContains
+  split
+  · exact (Outcome.Within.panic_iff _).2 rfl
+  · exact Outcome.Within.ok _
+
+/-- the containment test on an estimate: `ok`, `crsVertex` (projection), or `notCCW` (winding test) -/
+theorem cellContainsPoint_benign (r : Int) (c : Cell) (h : EstOK r c) (h2 : 2 ≤ r) (hr : r ≤ 29)
+    (lon lat : Float) : Benign (cellContainsPoint c lon lat) := by
+  have hF : Gen.FIRST_HILBERT_RESOLUTION = 2 := rfl
+  obtain ⟨p, hp⟩ := getPentagon_est r c h h2 hr
+  obtain ⟨h1, ho, hs, h4⟩ := h
+  unfold cellContainsPoint
+  generalize fromLonLat lon lat = tp
+  obtain ⟨theta, phi⟩ := tp
+  dsimp only
+  refine Outcome.Within.bind (dodecaForward_okOrCrs theta phi c.origin ho).benign fun pp _ => ?_
+  rewrite [if_neg (by rewrite [origins_length]; omega)]
+  generalize segmentToQuintant c.segment (originAt c.origin) = qo
+  obtain ⟨q, o⟩ := qo
+  dsimp only
+  rewrite [if_neg (by omega), if_neg (by omega), hp]
+  simp only [Outcome.bind_ok]
+  exact polyContains_benign p pp
+
+/-! ### the sample loop -/
+
+/-- the fallback choice: first maximum of the recorded distances (stable descending sort, head) -/
+def firstMax (c0 : Cell × Float) (rest : List (Cell × Float)) : Cell × Float :=
+  rest.foldl (fun (b : Cell × Float) c => if c.2 > b.2 then c else b) c0
+
+theorem firstMax_mem : ∀ (rest : List (Cell × Float)) (c0 : Cell × Float), firstMax c0 rest ∈ c0 :: rest := by
+  intro rest
+  induction rest with
+  | nil => intro c0; exact List.mem_cons_self
+  | cons x xs ih =>
+    intro c0
+    show firstMax (if x.2 > c0.2 then x else c0) xs ∈ c0 :: x :: xs
+    have h := ih (if x.2 > c0.2 then x else c0)
+    rcases List.mem_cons.1 h with h | h
+    · rewrite [h]
+      split
+      · exact List.mem_cons_of_mem _ List.mem_cons_self
+      · exact List.mem_cons_self
+    · exact List.mem_cons_of_mem _ (List.mem_cons_of_mem _ h)
+
+theorem lookupLoop_nil_nil (lon lat : Float) (r : Int) (seen : List Nat) :
+    lookupLoop lon lat r [] seen [] = .panic .indexOOB := rfl
+
+theorem lookupLoop_nil_cons (lon lat : Float) (r : Int) (seen : List Nat) (c0 : Cell × Float)
+    (rest : List (Cell × Float)) :
+    lookupLoop lon lat r [] seen (c0 :: rest) =
+      (serialize (firstMax c0 rest).1 >>= fun id => .ok ⟨id, -1⟩) := rfl
+
+theorem lookupLoop_cons (lon lat : Float) (r : Int) (slon slat : Float) (samples : List (Float × Float))
+    (seen : List Nat) (cells : List (Cell × Float)) :
+    lookupLoop lon lat r ((slon, slat) :: samples) seen cells =
+      (lonlatToEstimate slon slat r >>= fun est =>
+        serialize est >>= fun key =>
+        if seen.contains key then lookupLoop lon lat r samples seen cells
+        else
+          cellContainsPoint est lon lat >>= fun distance =>
+          if distance > 0.0 then serialize est >>= fun id => .ok ⟨id, seen.length⟩
+          else lookupLoop lon lat r samples (seen ++ [key]) (cells ++ [(est, distance)])) := rfl
+
+/-- a hit: `id` encodes the estimate of one of the samples, and the model's own containment test of
+that cell against the *query point* is strictly positive -/
+def HitAt (lon lat : Float) (r : Int) (samples : List (Float × Float)) (id : Nat) : Prop :=
+  ∃ c d, EstOK r c ∧ (∃ smp ∈ samples, lonlatToEstimate smp.1 smp.2 r = .ok c) ∧ serialize c = .ok id ∧
+    cellContainsPoint c lon lat = .ok d ∧ d > 0.0
+
+/-- a recorded miss: an estimate of one of the samples whose containment value is not positive -/
+def Miss (lon lat : Float) (r : Int) (samples : List (Float × Float)) (e : Cell × Float) : Prop :=
+  EstOK r e.1 ∧ (∃ smp ∈ samples, lonlatToEstimate smp.1 smp.2 r = .ok e.1) ∧
+    cellContainsPoint e.1 lon lat = .ok e.2 ∧ ¬ (e.2 > 0.0)
+
+/-- the fallback: `id` encodes the first maximum of the non-empty list of recorded misses -/
+def FallbackAt (lon lat : Float) (r : Int) (samples : List (Float × Float)) (cells : List (Cell × Float))
+    (id : Nat) : Prop :=
+  ∃ extra c0 rest, (∀ e ∈ extra, Miss lon lat r samples e) ∧ cells ++ extra = c0 :: rest ∧
+    EstOK r (firstMax c0 rest).1 ∧ serialize (firstMax c0 rest).1 = .ok id
+
+def LoopPost (lon lat : Float) (r : Int) (samples : List (Float × Float)) (cells : List (Cell × Float)) :
+    Outcome LookupResult → Prop
+  | .err e => e = .crsVertex
+  | .panic k => k = .notCCW
+  | .ok res => (0 ≤ res.branch ∧ HitAt lon lat r samples res.id) ∨
+      (res.branch = -1 ∧ FallbackAt lon lat r samples cells res.id)
+
+theorem Miss.mono {lon lat : Float} {r : Int} {samples : List (Float × Float)} {e : Cell × Float}
+    (smp : Float × Float) (h : Miss lon lat r samples e) : Miss lon lat r (smp :: samples) e := by
+  obtain ⟨h1, ⟨s, hs, h2⟩, h3, h4⟩ := h
+  exact ⟨h1, ⟨s, List.mem_cons_of_mem _ hs, h2⟩, h3, h4⟩
+
+theorem LoopPost.weaken {lon lat : Float} {r : Int} {samples : List (Float × Float)}
+    {cells new : List (Cell × Float)} {x : Outcome LookupResult} (smp : Float × Float)
+    (h : LoopPost lon lat r samples (cells ++ new) x) (hnew : ∀ e ∈ new, Miss lon lat r (smp :: samples) e) :
+    LoopPost lon lat r (smp :: samples) cells x := by
+  cases x with
+  | err e => exact h
+  | panic k => exact h
+  | ok res =>
+    rcases h with ⟨hb, c, d, h1, ⟨s, hs, h2⟩, h3, h4, h5⟩ | ⟨hb, extra, c0, rest, h1, h2, h3, h4⟩
+    · exact Or.inl ⟨hb, c, d, h1, ⟨s, List.mem_cons_of_mem _ hs, h2⟩, h3, h4, h5⟩
+    · refine Or.inr ⟨hb, new ++ extra, c0, rest, ?_, ?_, h3, h4⟩
+      · intro e he
+        rcases List.mem_append.1 he with he | he
+        · exact hnew e he
+        · exact (h1 e he).mono smp
+      · rewrite [← List.append_assoc]; exact h2
+
+/-- MAIN loop invariant.  For curve resolutions `2 ≤ r ≤ 29`: if all recorded cells are estimates and
+the fallback list is non-empty or nothing has been tried yet (and a sample remains), then the loop ends
+in a hit, a fallback, a `crsVertex` error or a `notCCW` panic — nothing else. -/
+theorem lookupLoop_post (lon lat : Float) (r : Int) (h2 : 2 ≤ r) (hr : r ≤ 29) :
+    ∀ (samples : List (Float × Float)) (seen : List Nat) (cells : List (Cell × Float)),
+      (∀ e ∈ cells, EstOK r e.1) → (cells ≠ [] ∨ (seen = [] ∧ samples ≠ [])) →
+      LoopPost lon lat r samples cells (lookupLoop lon lat r samples seen cells) := by
+  intro samples
+  induction samples with
+  | nil =>
+    intro seen cells hall hJ
+    cases cells with
+    | nil => rcases hJ with h | ⟨_, h⟩ <;> exact absurd rfl h
+    | cons c0 rest =>
+      rewrite [lookupLoop_nil_cons]
+      have hest := hall _ (firstMax_mem rest c0)
+      obtain ⟨id, hid, _, _⟩ := serialize_est r _ hest (by omega) hr
+      rewrite [hid]
+      simp only [Outcome.bind_ok]
+      exact Or.inr ⟨rfl, [], c0, rest, fun e he => absurd he List.not_mem_nil, List.append_nil _, hest, hid⟩
+  | cons smp samples ih =>
+    intro seen cells hall hJ
+    obtain ⟨slon, slat⟩ := smp
+    rewrite [lookupLoop_cons]
+    rcases lonlatToEstimate_cases slon slat r hr with he | ⟨est, he, hest⟩
+    · rewrite [he]; exact rfl
+    rewrite [he]
+    simp only [Outcome.bind_ok]
+    obtain ⟨key, hkey, _, _⟩ := serialize_est r est hest (by omega) hr
+    rewrite [hkey]
+    simp only [Outcome.bind_ok]
+    by_cases hc : seen.contains key = true
+    · rewrite [if_pos hc]
+      have hcells : cells ≠ [] := by
+        rcases hJ with h | ⟨h, _⟩
+        · exact h
+        · subst h; cases hc
+      have := ih seen (cells ++ []) (by rewrite [List.append_nil]; exact hall)
+        (Or.inl (by rewrite [List.append_nil]; exact hcells))
+      rewrite [List.append_nil] at this
+      refine LoopPost.weaken (new := []) (slon, slat) ?_ (fun e he => absurd he List.not_mem_nil)
+      rewrite [List.append_nil]
+      exact this
+    · rewrite [if_neg hc]
+      have hb := cellContainsPoint_benign r est hest h2 hr lon lat
+      cases hd : cellContainsPoint est lon lat with
+      | err e => rewrite [hd] at hb; exact (Outcome.Within.err_iff e).1 hb
+      | panic k => rewrite [hd] at hb; exact (Outcome.Within.panic_iff k).1 hb
+      | ok d =>
+        simp only [Outcome.bind_ok]
+        by_cases hpos : d > 0.0
+        · rewrite [if_pos hpos]
+          exact Or.inl ⟨Int.natCast_nonneg _, est, d, hest, ⟨(slon, slat), List.mem_cons_self, he⟩, hkey, hd, hpos⟩
+        · rewrite [if_neg hpos]
+          refine LoopPost.weaken (new := [(est, d)]) (slon, slat) ?_ ?_
+          · refine ih _ _ ?_ (Or.inl (by simp))
+            intro e he'
+            rcases List.mem_append.1 he' with h | h
+            · exact hall e h
+            · cases List.mem_singleton.1 h; exact hest
+          · intro e he'
+            cases List.mem_singleton.1 he'
+            exact ⟨hest, ⟨(slon, slat), List.mem_cons_self, he⟩, hd, hpos⟩
+
+/-! ### `lonlat_to_cell` -/
+
+theorem probeSamples_eq (lon lat : Float) (hres : Int) :
+    ∃ tail, probeSamples lon lat hres = (lon, lat) :: tail ∧ tail.length = 25 := by
+  unfold probeSamples
+  exact ⟨_, rfl, by rewrite [List.length_map, List.length_range]; rfl⟩
+
+theorem lonlatToCellB_outOfRange (lon lat : Float) (r : Int) (h : r < -1 ∨ 29 < r) :
+    lonlatToCellB lon lat r = .err .resOutOfRange := by
+  unfold lonlatToCellB
+  rewrite [if_neg (by omega)]
+  have e : (!(decide (-1 ≤ r) && decide (r < Gen.MAX_RESOLUTION))) = true := by
+    have hM : Gen.MAX_RESOLUTION = 30 := rfl
+    rcases h with h | h
+    · have : decide (-1 ≤ r) = false := decide_eq_false (by omega)
+      rewrite [this]; rfl
+    · have : decide (r < Gen.MAX_RESOLUTION) = false := decide_eq_false (by omega)
+      rewrite [this, Bool.and_false]; rfl
+  rewrite [if_pos e]
+  rfl
+
+theorem lonlatToCellB_world (lon lat : Float) : lonlatToCellB lon lat (-1) = .ok ⟨0, -3⟩ := by
+  unfold lonlatToCellB
+  rewrite [if_pos rfl]
+  rfl
+
+theorem lonlatToCellB_inRange (lon lat : Float) (r : Int) (h0 : 0 ≤ r) (hr : r ≤ 29) :
+    lonlatToCellB lon lat r =
+      if r < 2 then lonlatToEstimate lon lat r >>= fun est => serialize est >>= fun id => .ok ⟨id, -2⟩
+      else lookupLoop lon lat r (probeSamples lon lat (1 + r - 2)) [] [] := by
+  unfold lonlatToCellB
+  rewrite [if_neg (by omega)]
+  have e : (!(decide (-1 ≤ r) && decide (r < Gen.MAX_RESOLUTION))) = false := by
+    have hM : Gen.MAX_RESOLUTION = 30 := rfl
+    have h1 : decide (-1 ≤ r) = true := decide_eq_true (by omega)
+    have h2 : decide (r < Gen.MAX_RESOLUTION) = true := decide_eq_true (by omega)
+    rewrite [h1, h2]; rfl
+  rewrite [if_neg (by rewrite [e]; exact Bool.false_ne_true)]
+  rfl
+
+/-- complete description of the outcomes of `lonlat_to_cell` (with the branch tag) for `-1 ≤ r ≤ 29` -/
+def CellBPost (lon lat : Float) (r : Int) : Outcome LookupResult → Prop
+  | .err e => e = .crsVertex ∧ 0 ≤ r
+  | .panic k => k = .notCCW ∧ 2 ≤ r
+  | .ok res => Layout res.id ∧ getResolution res.id = r ∧
+      ((r = -1 ∧ res.id = 0 ∧ res.branch = -3) ∨
+       (0 ≤ r ∧ r < 2 ∧ res.branch = -2 ∧
+          ∃ c, EstOK r c ∧ lonlatToEstimate lon lat r = .ok c ∧ serialize c = .ok res.id) ∨
+       (2 ≤ r ∧ 0 ≤ res.branch ∧ HitAt lon lat r (probeSamples lon lat (1 + r - 2)) res.id) ∨
+       (2 ≤ r ∧ res.branch = -1 ∧ FallbackAt lon lat r (probeSamples lon lat (1 + r - 2)) [] res.id))
+
+theorem lonlatToCellB_post (lon lat : Float) (r : Int) (hm : -1 ≤ r) (hr : r ≤ 29) :
+    CellBPost lon lat r (lonlatToCellB lon lat r) := by
+  by_cases hw : r = -1
+  · subst hw
+    rewrite [lonlatToCellB_world]
+    exact ⟨Or.inl rfl, getResolution_zero', Or.inl ⟨rfl, rfl, rfl⟩⟩
+  rewrite [lonlatToCellB_inRange lon lat r (by omega) hr]
+  by_cases h2 : r < 2
+  · rewrite [if_pos h2]
+    rcases lonlatToEstimate_cases lon lat r hr with he | ⟨est, he, hest⟩
+    · rewrite [he]; exact ⟨rfl, by omega⟩
+    · obtain ⟨id, hid, hlay, hres⟩ := serialize_est r est hest (by omega) hr
+      rewrite [he]
+      simp only [Outcome.bind_ok]
+      rewrite [hid]
+      simp only [Outcome.bind_ok]
+      exact ⟨hlay, hres, Or.inr (Or.inl ⟨by omega, h2, rfl, est, hest, he, hid⟩)⟩
+  · rewrite [if_neg h2]
+    obtain ⟨tail, hps, _⟩ := probeSamples_eq lon lat (1 + r - 2)
+    have hpost := lookupLoop_post lon lat r (by omega) hr (probeSamples lon lat (1 + r - 2)) [] []
+      (fun e he => absurd he List.not_mem_nil) (Or.inr ⟨rfl, by rewrite [hps]; exact List.cons_ne_nil _ _⟩)
+    cases hl : lookupLoop lon lat r (probeSamples lon lat (1 + r - 2)) [] [] with
+    | err e => rewrite [hl] at hpost; exact ⟨hpost, by omega⟩
+    | panic k => rewrite [hl] at hpost; exact ⟨hpost, by omega⟩
+    | ok res =>
+      rewrite [hl] at hpost
+      rcases hpost with ⟨hb, hhit⟩ | ⟨hb, hfb⟩
+      · have hhit' := hhit
+        obtain ⟨c, d, hest, _, hser, _, _⟩ := hhit'
+        obtain ⟨hlay, hres, _, _⟩ := serialize_ok_layout c res.id hser hest.2.1 hest.2.2.1
+        exact ⟨hlay, hres.trans hest.1, Or.inr (Or.inr (Or.inl ⟨by omega, hb, hhit⟩))⟩
+      · have hfb' := hfb
+        obtain ⟨extra, c0, rest, _, _, hest, hser⟩ := hfb'
+        obtain ⟨hlay, hres, _, _⟩ := serialize_ok_layout _ res.id hser hest.2.1 hest.2.2.1
+        exact ⟨hlay, hres.trans hest.1, Or.inr (Or.inr (Or.inr ⟨by omega, hb, hfb⟩))⟩
+
+theorem lonlatToCell_eq (lon lat : Float) (r : Int) :
+    lonlatToCell lon lat r = (lonlatToCellB lon lat r >>= fun x => .ok x.id) := rfl
+
+/-! ### `cell_to_lonlat` skeleton -/
+
+theorem cellToLonLat_ok_deserialize (id : Nat) (p : Float × Float) (h : cellToLonLat id = .ok p) :
+    (deserialize id).isOk = true := by
+  unfold cellToLonLat at h
+  by_cases h0 : id = Gen.WORLD_CELL
+  · have : id = 0 := h0
+    subst this
+    rewrite [deserialize_world 0 getResolution_zero']; rfl
+  · rewrite [if_neg h0] at h
+    cases hd : deserialize id with
+    | ok c => rfl
+    | err e => rewrite [hd] at h; cases h
+    | panic k => rewrite [hd] at h; cases h
+
+/-- ids without a resolution marker (the world cell and its aliases) map to `(0, 0)` -/
+theorem cellToLonLat_world (id : Nat) (h : getResolution id = -1) : cellToLonLat id = .ok (0.0, 0.0) := by
+  unfold cellToLonLat
+  by_cases h0 : id = Gen.WORLD_CELL
+  · rewrite [if_pos h0]; rfl
+  · rewrite [if_neg h0, deserialize_world id h]
+    simp only [Outcome.bind_ok, if_true]
 
 end A5
